@@ -307,9 +307,21 @@ def attrsVerdict (want : List Attr) : Parsed → Option String
           | some x =>
               if x.1.code = 2 then some "as-path-differs"
               else if x.1.data ≠ x.2.data then some "attribute-value-differs"
-              else some "attribute-flags-differ"
+              else some s!"attribute-flags-differ-code-{x.1.code}"
           | none => some "attributes-differ"
   | _ => none
+
+/-- what is special about the input AS_PATH (for classifying a difference) -/
+def asPathCause (attrs : List Attr) : String :=
+  match attrs.find? (·.code == 2) with
+  | some a =>
+      (match parseSegs 4 (wireValue a) with
+       | some segs =>
+           if segs.any (fun s => s.1 == 3 || s.1 == 4) then "-confed-segment"
+           else if segs.any (fun s => s.2.isEmpty) then "-empty-segment"
+           else ""
+       | none => "")
+  | none => ""
 
 def checkUpdate (i : Input) (f : Fam) (reach : Bool) (nh : Option Nh) (attrs : List Attr) (es : List Entry)
     (ps : List Parsed) : Option String :=
@@ -326,8 +338,14 @@ def checkUpdate (i : Input) (f : Fam) (reach : Bool) (nh : Option Nh) (attrs : L
     | some s => some s
     | none =>
       if reach then
-        if mine.any (fun c => c.nh ≠ some nh) then some "nexthop-differs"
-        else firstSome ps (attrsVerdict (sortAttrs (attrs.map canonAttr)))
+        if mine.any (fun c => c.nh ≠ some nh) then
+          -- classify by the input: an IPv4 next hop that has to travel inside MP_REACH_NLRI
+          let v4InMp := (match nh with | some (.v4 _) => true | _ => false) && !(f == Fam.ipv4 && !extNhNegotiated i)
+          some (if v4InMp then "nexthop-differs-ipv4-in-mp-reach" else "nexthop-differs")
+        else
+          -- classify an AS_PATH difference by the input path: confederation / empty segment / neither
+          (firstSome ps (attrsVerdict (sortAttrs (attrs.map canonAttr)))).map (fun s =>
+            if s == "as-path-differs" then s ++ asPathCause attrs else s)
       else
         let _ := i
         none
